@@ -9,6 +9,7 @@
 //! Workshop on Principles and Practice of Consistency for Distributed Data (2020), Article no. 5,
 //! pp. 1-6.
 
+use std::cmp::Ordering;
 use std::collections::{HashMap, HashSet};
 use std::fmt::Debug;
 use std::hash::Hash;
@@ -389,7 +390,7 @@ pub fn demote<ID: Eq + Hash, C: Conditions>(
 /// counter indicates that it has undergone more actions; this state will be included in the merge.
 ///
 /// If a member exists with different access levels in each state but the same number of access
-/// modifications, the lower of the two access levels will be chosen.
+/// modifications, the lower of the two access levels will be chosen (see [`is_lower_access`]).
 pub fn merge<ID: Clone + Eq + Hash, C: Conditions>(
     state_1: GroupMembersState<ID, C>,
     state_2: GroupMembersState<ID, C>,
@@ -417,7 +418,7 @@ pub fn merge<ID: Clone + Eq + Hash, C: Conditions>(
 
                 // If the access counters are the same, take the lower of the two access levels.
                 if member_state_1.access_counter == member_state.access_counter
-                    && member_state_1.access < member_state.access
+                    && is_lower_access(&member_state_1.access, &member_state.access)
                 {
                     member_state.access = member_state_1.access;
                 }
@@ -429,6 +430,27 @@ pub fn merge<ID: Clone + Eq + Hash, C: Conditions>(
     }
 
     next_state
+}
+
+/// Returns `true` if `a` is strictly lower than `b` in the order used to break ties between
+/// concurrently assigned access values: first by access level, then by conditions, where
+/// conditional access is lower than unconditional access.
+///
+/// The `PartialOrd` implementation of `Access` answers "does this access satisfy that request"
+/// and is not antisymmetric when conditions are involved (`a < b` and `b < a` can both hold, or
+/// neither for unequal values). Using it as a tie-break would make the result of a merge depend on
+/// the order of its arguments. This order is total whenever the conditions are totally ordered, so
+/// that both argument orders pick the same winner.
+pub(crate) fn is_lower_access<C: Conditions>(a: &Access<C>, b: &Access<C>) -> bool {
+    match a.level.cmp(&b.level) {
+        Ordering::Less => true,
+        Ordering::Greater => false,
+        Ordering::Equal => match (&a.conditions, &b.conditions) {
+            (Some(_), None) => true,
+            (Some(a), Some(b)) => a < b,
+            _ => false,
+        },
+    }
 }
 
 #[cfg(test)]
